@@ -535,16 +535,17 @@ package sipsp
 //@     cases int(state) 1 17
 //@     split i < len(uri) && uri[i] == '@'
 //@   ensures 0 <= n && n <= len(uri)
-//@   ensures[C14] "consumed-all": err == 0 ==> n == len(uri) && schemeOK(uri, puri, int(puri.Scheme.Len))
-//@   ensures[C14] "user-part": err == 0 && puri.URIType != TELuri ==> upOK(uri, puri, int(puri.Scheme.Len))
-//@   ensures[C14] "host-to-end": err == 0 && puri.URIType != TELuri ==> tailOK(uri, puri, puri.Host, upEnd(puri, int(puri.Scheme.Len)), n)
-//@   ensures[C14] "brackets": err == 0 && puri.URIType != TELuri ==> brOK(uri, puri.Host)
-//@   ensures[C14] "at-belongs-to-user": err == 0 && puri.URIType != TELuri ==> noAt(uri, max2(int(puri.Host.Offs), int(puri.Scheme.Len)+1), n)
-//@   ensures[C14] "tel": err == 0 && puri.URIType == TELuri ==> pfZero(puri.Host) && int(puri.User.Offs) >= int(puri.Scheme.Len) &&
+//@   ensures[C14,*] "consumed-all": err == 0 ==> n == len(uri) && schemeOK(uri, puri, int(puri.Scheme.Len))
+//@   ensures[C14,*] "user-part": err == 0 && puri.URIType != TELuri ==> upOK(uri, puri, int(puri.Scheme.Len))
+//@   ensures[C14,*] "host-to-end": err == 0 && puri.URIType != TELuri ==> tailOK(uri, puri, puri.Host, upEnd(puri, int(puri.Scheme.Len)), n)
+//@   ensures[C14,*] "brackets": err == 0 && puri.URIType != TELuri ==> brOK(uri, puri.Host)
+//@   ensures[C14,*] "at-belongs-to-user": err == 0 && puri.URIType != TELuri ==> noAt(uri, max2(int(puri.Host.Offs), int(puri.Scheme.Len)+1), n)
+//@   ensures[C14,*] "tel": err == 0 && puri.URIType == TELuri ==> pfZero(puri.Host) && int(puri.User.Offs) >= int(puri.Scheme.Len) &&
 //@                 (int(puri.User.Offs) == int(puri.Scheme.Len) || uri[int(puri.User.Offs)-1] == '@') && tailOK(uri, puri, puri.User, int(puri.User.Offs), n)
 //@   ensures[C14] "error-offset": err != 0 ==> 0 <= n && n <= len(uri)
-//@   ensures[C10] "port-exact": err == 0 ==> portExact(uri, puri)
+//@   ensures[C10,*] "port-exact": err == 0 ==> portExact(uri, puri)
 //@   ensures err == 0 && (puri.URIType != TELuri || puri.Pass.Offs == 0) ==> uriOK(puri)
+//@   ensures err == 0 ==> uriIn(puri, len(uri))
 
 // ---- token parameters (C17) ----
 
@@ -696,3 +697,40 @@ package sipsp
 //@   requires hv != nil && contWF(&hv.Contacts) && blockSep(hv, hv.Contacts.Vals)
 //@   modifies *hv, hv.Contacts.Vals[*]
 //@   ensures[C12,*] "hv-init": hvZeroBut(hv) && sameSlice(hv.Contacts.Vals, contactsbuf)
+
+// ---- URI comparison (C15: short comparison and the parse-and-compare entry points) ----
+
+//@ func URICmpShort(u1, buf1, u2, buf2, flags) (r)
+//@   requires u1 != nil && u2 != nil && bufOK(buf1) && bufOK(buf2) && uriIn(u1, len(buf1)) && uriIn(u2, len(buf2))
+//@   ensures[C15] "short-spec": r == shortSpec(u1, buf1, u2, buf2, flags)
+//@   ensures[C15] "spec-reflexive": shortSpec(u1, buf1, u1, buf1, flags)
+//@   ensures[C15] "spec-symmetric": shortSpec(u1, buf1, u2, buf2, flags) == shortSpec(u2, buf2, u1, buf1, flags)
+//@   ensures[C15] "spec-skip-monotone": shortSpec(u1, buf1, u2, buf2, flags) ==> shortSpec(u1, buf1, u2, buf2, flags|URICmpSkipScheme) &&
+//@                 shortSpec(u1, buf1, u2, buf2, flags|URICmpSkipPort) && shortSpec(u1, buf1, u2, buf2, flags|URICmpSkipUser) && shortSpec(u1, buf1, u2, buf2, flags|URICmpSkipPass)
+
+//@ func URIParamsEq(buf1, offs1, buf2, offs2) (r, err)
+//@   trusted
+//@   requires bufOK(buf1) && bufOK(buf2) && 0 <= offs1 && offs1 <= len(buf1) && 0 <= offs2 && offs2 <= len(buf2)
+
+//@ func URIHdrsEq(buf1, offs1, buf2, offs2) (r, err)
+//@   trusted
+//@   requires bufOK(buf1) && bufOK(buf2) && 0 <= offs1 && offs1 <= len(buf1) && 0 <= offs2 && offs2 <= len(buf2)
+
+//@ func URICmp(u1, buf1, u2, buf2, flags) (r)
+//@   requires u1 != nil && u2 != nil && bufOK(buf1) && bufOK(buf2) && uriIn(u1, len(buf1)) && uriIn(u2, len(buf2))
+//@   ensures[C15] "cmp-implies-short": r ==> shortSpec(u1, buf1, u2, buf2, flags)
+//@   ensures[C15] "cmp-skip-all-lists": flags&URICmpSkipParams != 0 && flags&URICmpSkipHeaders != 0 ==> r == shortSpec(u1, buf1, u2, buf2, flags)
+
+//@ func URIParseCmp(rawURI1, rawURI2, flags, r1, r2) (r, err, idx)
+//@   requires bufOK(rawURI1) && bufOK(rawURI2) && (r1 == nil || r2 == nil || blockSep(r1, r2))
+//@   requires (r1 == nil || (blockSep(r1, rawURI1) && blockSep(r1, rawURI2))) && (r2 == nil || (blockSep(r2, rawURI1) && blockSep(r2, rawURI2)))
+//@   modifies *r1, *r2
+//@   ensures[C15] "error-names-the-uri": err != NoURIErr ==> !r && (idx == 0 || idx == 1)
+//@   ensures[C15] "hands-back-uri1-scheme": err == NoURIErr && r1 != nil ==> schemeOK(rawURI1, r1, int(r1.Scheme.Len)) && uriIn(r1, len(rawURI1))
+//@   ensures[C15] "hands-back-uri1-user": err == NoURIErr && r1 != nil && r1.URIType != TELuri ==> upOK(rawURI1, r1, int(r1.Scheme.Len))
+//@   ensures[C15] "hands-back-uri1-host": err == NoURIErr && r1 != nil && r1.URIType != TELuri ==> tailOK(rawURI1, r1, r1.Host, upEnd(r1, int(r1.Scheme.Len)), len(rawURI1))
+//@   ensures[C15] "hands-back-uri2": err == NoURIErr && r2 != nil ==> uriLossless(rawURI2, r2, len(rawURI2)) && portExact(rawURI2, r2)
+
+//@ func URIRawCmp(rawURI1, rawURI2, flags) (r, err, idx)
+//@   requires bufOK(rawURI1) && bufOK(rawURI2)
+//@   ensures[C15] "raw-error": err != NoURIErr ==> !r && (idx == 0 || idx == 1)
